@@ -42,12 +42,12 @@ func cmdVerify(args []string) {
 		} else if strings.HasPrefix(key, "lemma:") {
 			res = encodeLemma(p, db, strings.TrimPrefix(key, "lemma:"))
 		} else {
-			fn := p.Func(key)
+			fn := p.Func(strings.TrimSuffix(key, "!safety"))
 			if fn == nil {
 				fmt.Println("no such function", key)
 				continue
 			}
-			res = encodeUnit(p, db, fn)
+			res = encodeUnitMode(p, db, fn, strings.HasSuffix(key, "!safety"))
 		}
 		if res.Rejected != "" {
 			fmt.Printf("%s: REJECTED: %s\n", key, res.Rejected)
@@ -69,7 +69,7 @@ func cmdVerify(args []string) {
 						fmt.Printf("      %s = %s\n", in.Name, o.Res.Model[in.Sym])
 					}
 				}
-				if *dump != "" && o.Res.Verdict != "unsat" && o.Res.Verdict != "skipped" {
+				if *dump != "" && (o.Res.Verdict != "unsat" || os.Getenv("GOVC_DUMPALL") != "") && o.Res.Verdict != "skipped" {
 					os.MkdirAll(*dump, 0o755)
 					name := strings.NewReplacer("/", "_", " ", "_", "*", "", "(", "", ")", "").Replace(o.Name)
 					os.WriteFile(filepath.Join(*dump, name+".smt2"), []byte("(set-logic ALL)\n"+res.unit.script(o)+"(check-sat)\n"), 0o644)
@@ -80,6 +80,9 @@ func cmdVerify(args []string) {
 					if gs := ginstScript(res.unit.script(o), true); gs != "" {
 						os.WriteFile(filepath.Join(*dump, name+".ground.smt2"), []byte("(set-logic ALL)\n"+gs+"(check-sat)\n"), 0o644)
 					}
+					if gs := ginstScriptLevel(res.unit.script(o), true, true, 0); gs != "" {
+						os.WriteFile(filepath.Join(*dump, name+".ufl.smt2"), []byte("(set-logic ALL)\n"+gs+"(check-sat)\n"), 0o644)
+					}
 					if gs := ginstScriptOpt(res.unit.script(o), true, true); gs != "" {
 						os.WriteFile(filepath.Join(*dump, name+".uf.smt2"), []byte("(set-logic ALL)\n"+gs+"(check-sat)\n"), 0o644)
 					}
@@ -87,6 +90,9 @@ func cmdVerify(args []string) {
 						os.WriteFile(filepath.Join(*dump, name+".focused.smt2"), []byte("(set-logic ALL)\n"+fs+"(check-sat)\n"), 0o644)
 						if gs := ginstScript(fs, true); gs != "" {
 							os.WriteFile(filepath.Join(*dump, name+".fground.smt2"), []byte("(set-logic ALL)\n"+gs+"(check-sat)\n"), 0o644)
+						}
+						if gs := ginstScriptLevel(fs, true, true, 0); gs != "" {
+							os.WriteFile(filepath.Join(*dump, name+".fufl.smt2"), []byte("(set-logic ALL)\n"+gs+"(check-sat)\n"), 0o644)
 						}
 						if gs := ginstScriptOpt(fs, true, true); gs != "" {
 							os.WriteFile(filepath.Join(*dump, name+".fuf.smt2"), []byte("(set-logic ALL)\n"+gs+"(check-sat)\n"), 0o644)
